@@ -76,6 +76,15 @@ pub struct ReplayFile {
     /// the decisions taken, as a list (also present as `spec.overrides` once minimised)
     pub decisions: Vec<Decision>,
     pub history: Vec<String>,
+    /// Runs (spec, mode) executed on the same program in the same process right before this one,
+    /// oldest first. Empty unless the violation only reproduces after them, i.e. the lexer's
+    /// behaviour depends on what other lexer values of the same definition did before (hidden
+    /// state outside the lexer struct). Replay executes them first.
+    #[serde(default)]
+    pub prelude: Vec<(RunSpec, String)>,
+    /// the run as it was found, when `spec` is a minimised version of it
+    #[serde(default)]
+    pub original_spec: Option<RunSpec>,
 }
 
 #[derive(Clone, Debug, Default, Serialize, Deserialize)]
@@ -518,7 +527,7 @@ fn minimise(pc: &mut ProgCtx, property: &str, unit: &Unit, class: &[Label], obs:
                 c.spec.ops = Some(o);
                 cands.push(c);
             }
-            if !ops.iter().any(|o| matches!(o, Op::Fork(_) | Op::Drop(_))) {
+            if !ops.iter().any(|o| matches!(o, Op::Fork(_) | Op::Drop(_) | Op::Stranger)) {
                 let mut c = best.clone();
                 c.spec.ops = None;
                 cands.push(c);
@@ -624,6 +633,7 @@ fn history_lines(o: &Observed) -> Vec<String> {
             }
             Op::Fork(r) => out.push(format!("fork(replica {})", r)),
             Op::Drop(r) => out.push(format!("drop(replica {})", r)),
+            Op::Stranger => out.push("next(stranger: another lexer of the same definition over other text)".into()),
         }
         if out.len() > 60 {
             out.push("...".into());
@@ -674,6 +684,8 @@ fn make_replay(
         steps_before_minimisation: tries,
         decisions,
         history: history_lines(obs),
+        prelude: vec![],
+        original_spec: None,
     }
 }
 
@@ -735,6 +747,7 @@ fn units_for_base(args: &WorkerArgs, pc: &mut ProgCtx, pl: &Plan, b: u64) -> Vec
             fork_sched: None,
             base_text: vec![],
             faults: vec![],
+            stranger: None,
         };
         long_text(&mut r_in, pc, args.tier == "thorough", &probe)
     } else {
@@ -752,6 +765,7 @@ fn units_for_base(args: &WorkerArgs, pc: &mut ProgCtx, pl: &Plan, b: u64) -> Vec
         fork_sched: None,
         base_text: text.clone(),
         faults: vec![],
+        stranger: None,
     };
     let mut specs: Vec<RunSpec> = vec![base.clone()];
     let n = text.len();
@@ -974,8 +988,33 @@ fn units_for_base(args: &WorkerArgs, pc: &mut ProgCtx, pl: &Plan, b: u64) -> Vec
                     }
                 }
                 // a seeded random interleaving of up to four replicas ...
+                // an unrelated lexer value of the same definition, over other text of the same
+                // length (so that position-keyed hidden state collides), stepped in between
+                let stranger_text = |r: &mut Rng, t: &[char]| -> Vec<char> {
+                    let mut x = t.to_vec();
+                    match r.below(3) {
+                        0 => x.reverse(),
+                        1 => {
+                            if !x.is_empty() {
+                                x.rotate_left(1)
+                            }
+                        }
+                        _ => {
+                            for c in x.iter_mut() {
+                                if r.chance(1, 3) {
+                                    *c = *r.pick(&ALPHABET);
+                                }
+                            }
+                        }
+                    }
+                    x
+                };
+                let with_stranger = r_sched.chance(1, 2);
                 let mut a = s.clone();
                 a.fork_sched = Some(r_sched.next_u64());
+                if with_stranger {
+                    a.stranger = Some(stranger_text(&mut r_sched, &s.text));
+                }
                 units.push(Unit { spec: a, mode: "c15" });
                 // ... and a fork before call k, both replicas driven alternately, for a sampled k
                 let k = r_sched.range(0, 9);
@@ -983,9 +1022,15 @@ fn units_for_base(args: &WorkerArgs, pc: &mut ProgCtx, pl: &Plan, b: u64) -> Vec
                 ops.push(Op::Fork(0));
                 for _ in 0..(s.text.len() + 4 + s.polls as usize) {
                     ops.push(Op::Next(1));
+                    if with_stranger {
+                        ops.push(Op::Stranger);
+                    }
                     ops.push(Op::Next(0));
                 }
                 let mut bspec = s.clone();
+                if with_stranger {
+                    bspec.stranger = Some(stranger_text(&mut r_sched, &s.text));
+                }
                 bspec.ops = Some(ops);
                 units.push(Unit { spec: bspec, mode: "c15" });
             }
@@ -1054,6 +1099,16 @@ fn replay_main(args: &WorkerArgs, ctxs: &mut [ProgCtx]) {
     } else {
         "single"
     };
+    for (ps, pm) in &rf.prelude {
+        let pmode: &'static str = if pm.starts_with("c14") {
+            "c14"
+        } else if pm == "c15" {
+            "c15"
+        } else {
+            "single"
+        };
+        let _ = evaluate(pc, &rf.property, &Unit { spec: ps.clone(), mode: pmode });
+    }
     let unit = Unit { spec: rf.spec.clone(), mode };
     let ev = evaluate(pc, &rf.property, &unit);
     let res = match &ev.own {
@@ -1136,6 +1191,9 @@ fn run_main(args: &WorkerArgs, ctxs: &mut [ProgCtx]) {
         });
     }
     let describe = if args.mode == "describe" { args.describe } else { None };
+    // the last runs executed on each program, for violations that depend on earlier runs
+    const PRELUDE_LEN: usize = 24;
+    let mut recent: BTreeMap<usize, std::collections::VecDeque<(RunSpec, String)>> = BTreeMap::new();
     let mut reported = 0usize;
     let mut b = args.start_base;
     while b < args.base_runs {
@@ -1246,13 +1304,22 @@ fn run_main(args: &WorkerArgs, ctxs: &mut [ProgCtx]) {
                     reported += 1;
                     let class = d.class_for(&property);
                     let (munit, tries) = minimise(pc, &property, unit, &class, &obs);
-                    let rf = match reproduces(pc, &property, &munit, &class) {
+                    let mut rf = match reproduces(pc, &property, &munit, &class) {
                         Some((d2, m2, o2)) => make_replay(args, pc, &property, &munit, &d2, &m2, &o2, b, vi as u32, true, tries),
                         None => make_replay(args, pc, &property, unit, &d, &mode, &obs, b, vi as u32, false, tries),
                     };
+                    rf.prelude = recent.get(&p).map(|q| q.iter().cloned().collect()).unwrap_or_default();
+                    if rf.minimised {
+                        rf.original_spec = Some(unit.spec.clone());
+                    }
                     emit(&serde_json::json!({"t": "violation", "replay": rf}));
                 }
             }
+            let q = recent.entry(p).or_default();
+            if q.len() == PRELUDE_LEN {
+                q.pop_front();
+            }
+            q.push_back((unit.spec.clone(), unit.mode.to_string()));
         }
         b += 1;
     }
